@@ -6,6 +6,14 @@ ALL = ["C%02d" % i for i in range(1, 21)]
 
 # id -> (technique, level text, level note, design ref)
 CLAIMED = {
+ "C10": ("proptest dependency-graph generator against a reference resolvability model (both directions) + syn inspection of the output + error-message content",
+         "Generated-input search: dependency graphs (by-value, array, base, pointer, signature and extern-value edges; forward/backward/self; undefined names; chains up to 48 deep as fixed cases) are built; Ok must coincide with 'all names bind and by-value graph acyclic' per the reference model; on Ok every declared item and every type reference must be present in the output with the expected path; on field-caused Err the message must name every stuck type. Exploration.",
+         "Error-message exactness is only checked inside the `failed on types: [..]` list when that phrase is present (otherwise only completeness), so rewording weakens but never falsifies the check. Zero-sized array fields are not expected in the output (pinned from the code).",
+         "DESIGN.md §4 C10"),
+ "C11": ("proptest module-set generator with same-named definitions of distinct sizes against the reference binding rule; size (L0) and emitted paths (syn)",
+         "Generated-input search: the definition a short name denotes is observable through its unique size and through the fully qualified path in the emitted field/pointee/array/parameter/return/extern-value types; both must be the one the reference scoping rule selects, and no binding must mean Err. Exploration.",
+         "Trusts the reference binding rule in refmodel.rs (written from the property statement).",
+         "DESIGN.md §4 C11"),
  "C09": ("proptest programs x enumerated resolution schedules (cfg hook) x module-order permutations x repeated and fresh-process builds; byte-equality oracle",
          "Generated-input search over programs and schedules: every generated program is rebuilt under hash order (repeated), sorted/reverse/seeded set-dependent schedules, every priority permutation of its user items when it has <= 5 (6 in thorough) of them, every permutation of add_module order, and in fresh processes through pyxis::build on disk; all runs must agree on Ok/Err and on every output byte. Exploration; exhaustive over priority schedules only for the small programs stated.",
          "Schedules are installed through the cfg(pyxis_verif) hook in TypeRegistry::unresolved(); iteration order of the modules map (which file is written first) is sampled by fresh processes only.",
